@@ -3,6 +3,7 @@
 mod rng;
 mod out;
 mod eng_small;
+mod eng_store;
 
 pub struct Args {
     pub engine: String,
@@ -33,6 +34,8 @@ fn main() {
     match a.engine.as_str() {
         "gap" => eng_small::run_gap(&a),
         "width" => eng_small::run_width(&a),
+        "cache" => eng_store::run_cache(&a),
+        "dom" => eng_store::run_dom(&a),
         e => { eprintln!("unknown engine {}", e); std::process::exit(2); }
     }
 }
